@@ -377,10 +377,10 @@ void NLWriter2<Params>::WriteNLHeader() {
             Hdr().num_nl_vars_in_objs, Hdr().num_nl_vars_in_both);
 
   /// Linear network vars, functions, ak, flags, rnd calls
+  /// Always write arith and flags: a reader starts from
+  /// the NLHeader defaults (flags=1), so omitting zeros loses them
   const char* fmt =
-      Hdr().num_rand_vars ? gl_6y :
-                            Hdr().flags | Hdr().arith_kind ?
-                              gl_6x : gl_6;
+      Hdr().num_rand_vars ? gl_6y : gl_6x;
   nm.Printf(fmt, Hdr().num_linear_net_vars, Hdr().num_funcs,
             NLHeader::TEXT==Hdr().format ? 0 : Hdr().arith_kind,
             Hdr().flags, Hdr().num_rand_calls);
